@@ -80,6 +80,15 @@ Print Assumptions C19_generated_offset_vector_distances.
 
 (* sub_rects_from_rect_dimensions (hand model SubDims.v, run against the implementation): for every parameter value the
    rectangles lie strictly between sill and top inside the parent, between its left and right edges, and do not overlap *)
+(* LineSegment3D.from_sdl (generated; lays out the edges of the sub-rectangles): starts at s, has the requested length, points along d *)
+Theorem C19_from_sdl_has_the_requested_length_and_direction : forall qsqrt s d L,
+  let m := v3x d * v3x d + v3y d * v3y d + v3z d * v3z d in
+  qsqrt m * qsqrt m == m -> ~ m == 0 ->
+  let sg := LineSegment3D_from_sdl qsqrt s d L in
+  lr3p sg = s /\ dot3 (lr3v sg) (lr3v sg) == L * L /\ cross3 (lr3v sg) d =3= mkV3 0 0 0 /\ dot3 (lr3v sg) d == L * qsqrt m.
+Proof. exact from_sdl_spec. Qed.
+Print Assumptions C19_from_sdl_has_the_requested_length_and_direction.
+
 From LBG Require Import SubDims.
 Theorem C19_sub_rects_dimensions_inside_and_disjoint : forall base height srh0 srw0 sill0 hsep0,
   0 < base -> 0 < height -> 0 < srh0 -> 0 < srw0 -> 0 < hsep0 ->
